@@ -214,7 +214,7 @@ void xs_ilu_options(const vcase *c, int rowperm, superlu_options_t *opt)
     opt->ILU_DropRule = xs_ilu_drops[drop]; opt->ILU_DropTol = ILU_TOLS[tol]; opt->ILU_FillFactor = ILU_FILLS[fill]; opt->ILU_Norm = ILU_NORMS[norm]; opt->ILU_MILU = ILU_MILUS[milu];
     opt->RowPerm = rowperm ? LargeDiag_MC64 : NOROWPERM; opt->Trans = (trans_t[]){ NOTRANS, TRANS, CONJ }[c->trans];
     opt->ColPerm = (colperm_t[]){ NATURAL, MMD_ATA, MMD_AT_PLUS_A, COLAMD }[c->colperm]; opt->Equil = c->equil ? YES : NO; opt->DiagPivotThresh = c->u;
-    opt->ConditionNumber = (c->pat & 1) ? YES : NO; opt->PivotGrowth = NO;
+    opt->ConditionNumber = (c->pat & 1) ? YES : NO; opt->PivotGrowth = NO; opt->SymmetricMode = c->sym ? YES : NO;
 }
 int ilu_nodrop(int k)
 {
